@@ -48,7 +48,7 @@ def attr_safe(name):
     return is_identifier(name) and name not in PY_KEYWORDS and name not in JS_KEYWORDS and name.lower() not in RBQL_WORDS and name not in ('storage',) and not name.startswith('__')
 
 
-def lit(s, quote='\''):
+def lit(s, quote='\'', raw_tab=False):
     """String literal valid (and meaning the same) in Python and JavaScript; also the harness's own minimal escaper for column names."""
     out = []
     for c in s:
@@ -61,7 +61,7 @@ def lit(s, quote='\''):
         elif c == '\r':
             out.append('\\r')
         elif c == '\t':
-            out.append('\\t')
+            out.append('\t' if (raw_tab and len(s) % 2 == 0) else '\\t')      # value literals: half of them carry the tab itself, not its escape sequence
         else:
             out.append(c)
     return quote + ''.join(out) + quote
@@ -109,7 +109,7 @@ def render_expr(e, ctx, lang):
         body = e[1].replace('\\', '\\\\').replace('\n', '\\n').replace('\r', '\\r').replace('\t', '\\t')
         return e[2] + body + e[2]
     if t == 'str':
-        txt = lit(e[1], e[2] if len(e) > 2 else "'")
+        txt = lit(e[1], e[2] if len(e) > 2 else "'", raw_tab=True)
         if len(e) > 3 and e[3] == 'rawtab':
             txt = txt.replace('\\t', '\t')
         return txt
@@ -121,6 +121,8 @@ def render_expr(e, ctx, lang):
         return 'len(%s)' % R(e[1]) if lang == 'py' else '(%s).length' % R(e[1])
     if t == 'arith':
         return '(%s %s %s)' % (R(e[2]), e[1], R(e[3]))
+    if t == 'div':
+        return '%s / %s' % (R(e[1]), R(e[2]))      # true division of numbers: the same value in both languages
     if t == 'cmp':
         op = e[1]
         if op in ('===', '!==') and lang == 'py':
@@ -141,7 +143,7 @@ def render_expr(e, ctx, lang):
     if t == 'list':
         return '[%s]' % ', '.join(R(x) for x in e[1])
     if t == 'split':
-        return '%s.split(%s)' % (R(e[1]), lit(e[2]))
+        return '%s.split(%s)' % (R(e[1]), lit(e[2], raw_tab=True))
     if t == 'tostr':
         return 'str(%s)' % R(e[1]) if lang == 'py' else 'String(%s)' % R(e[1])
     if t == 'call':
@@ -389,6 +391,8 @@ def _vary_spaces(text, rng, lang):
         elif c in '"\'`':
             quote = c
             out.append(c)
+        elif c == ' ' and out and out[-1] == ',' and rng.random() < 0.3:
+            pass        # `a[1],a[2]`: the space after a comma is itself an extra space
         elif c == ' ':
             r = rng.random()
             if r < 0.6:
